@@ -236,9 +236,9 @@ NOT_APPLICABLE = {}
 
 MANIFEST_TEXT = {
     "C09": {
-        "text": "Termination by construction: every function of the Lean model is total (structural recursion or explicit fuel; no partial/unsafe outside the protocol driver) and the driver treats a model 'out-of-fuel' or 'panic' value as a disagreement. Lean theorems discharge panic sites locally: the chunk-offset rewrite never panics for any table, width and displacement (C09_displace_no_panic); the u32 sum of chunk counts cannot overflow when the tables fit a payload of at most 2^30 bytes (C09_chunk_count_no_overflow); 'skip_box + encoded_len' cannot overflow for explicitly sized boxes (C09_sized_box_add); prefix-code decoding on a complete tree never reaches the empty-node panic (C18_decode_no_panic). The whole-run claim is evaluated on the real crates: exhaustive truncation, bit/byte/field mutation, splices and sparse giants under catch_unwind + watchdog with overflow checks and debug assertions, both sanitizers, sync and async entry points; the model must reproduce every outcome.",
-        "note": "Partial: a whole-program 'the model never returns panic' theorem (a Hoare-style invariant over the scan loop) is not yet proved; it is enforced per generated case. Aborts and stack exhaustion are observable only as a dead harness process. Trusted: see evidence.",
-        "technique": "Lean 4 totality by construction + proofs of local panic-freedom lemmas; exhaustive truncation / mutation differential check under catch_unwind and a watchdog",
+        "text": "Lean theorem C09_mp4_total: for EVERY stream shorter than 2^64 bytes, seek-based or strict skip, and every configuration with max_metadata_size <= 4 x (2^32-1) and a 32-bit cumulative size, the model of mp4san's sanitize returns a value, a parse error or an I/O error - never a panic (no u64/u32 overflow, no unwrap/unreachable site) and never out of loop fuel (the scan loop ends within len/8+2 iterations since every iteration consumes at least a header). Proved with a program logic over I/O programs (Safe: rules for bind, read_exact, skip, position/length queries on the ideal cursor) and the loop invariant 'cursor is a u64, collected span lies behind it, kept ftyp/moov payloads within their limits'; the chunk-count sum cannot overflow because the counts are paid for by payload bytes (4 x sum <= payload length, proved through all five nesting levels of the lazily parsed tree); the rewrite and every tree combinator only propagate panics. With C11's simulation the same holds behind BufReader of any capacity. webpsan: totality by construction of the model (structural recursion / fuel) and local lemmas (C18_decode_no_panic). The real crates are exercised under catch_unwind + watchdog with overflow checks and debug assertions over exhaustive truncation, bit/byte/field mutation, splices and sparse giants, both sanitizers, sync and async entry points; the model must reproduce every outcome and never yield its own panic/out-of-fuel value.",
+        "note": "Partial for webpsan (no whole-program no-panic theorem yet: enforced per generated case). Aborts and stack exhaustion are observable only as a dead harness process. Trusted: see evidence.",
+        "technique": "Lean 4 proof: Hoare-style program logic over I/O programs with a loop invariant (whole-program panic-freedom and termination of the MP4 model), weight argument for the chunk-count sum; exhaustive truncation / mutation differential check under catch_unwind and a watchdog",
     },
     "C10": {
         "text": "Lean theorems: every read request the MP4 sanitizer program can issue, on any input, is for at most max(max_metadata_size, 1024) bytes, and a declared payload above the limit fails with InvalidInput before any I/O (C10_request_bound, C10_limit_before_alloc); after the header of any box other than ftyp/moov the iteration contains no read at all - only position/length queries and one skip (C10_media_not_read, a structural fact about the program); the outcome of any program on the ideal cursor depends only on the stream length and the bytes in the ranges it reads (C10_noninterference); through BufReader(cap), for every underlying reader, program and input, bytes delivered <= bytes returned by completed reads + cap x completed skips + cap at every point of the run (C10_physical_reads, an invariant proved per operation and lifted over I/O programs); the planned padding never exceeds the metadata, so the result is at most twice the re-encoded boxes (C10_pad_bounded). Correspondence and measurement on the real crates: metering Read+Skip and counting allocator over sparse multi-GiB layouts and adversarial size fields; exact agreement of read ranges with the model; webpsan peak heap against a constant for declared images up to 16384x16384 and chunks up to 2^32-30 bytes.",
@@ -306,9 +306,9 @@ MANIFEST_TEXT = {
         "technique": "Lean 4 proof of the output structure + differential correspondence incl. a real re-sanitize of every rewritten output",
     },
     "C03": {
-        "text": "Lean theorems on the ideal cursor of both kinds: the end-of-scan check passes iff position <= length (else TruncatedBox) - the mechanism that rejects overrunning boxes on seekable readers; strict skips/reads never leave the stream; seekable skips land exactly at pos+n without wrapping; span bookkeeping keeps the span contiguous. Spec_C03 (span inside input, starts at first mdat, ends with the maximal mdat/free/skip/meta/meco run, every mdat inside, overrunning input never accepted) is evaluated on the real output for seek-based and strict readers over layouts, overruns and until-EOF/cumulative cases.",
-        "note": "Partial: the loop invariant lifting the component lemmas to every run is not yet proved; the whole-run statement is checked per case on the implementation. The check found defect F1 (overrunning box accepted on seekable readers), repaired in /repo commit bdda8a4. Trusted: as C01.",
-        "technique": "Lean 4 proof of cursor/span lemmas + differential correspondence across reader kinds with spec evaluation on the implementation's output",
+        "text": "Lean theorem C03_span_within_input: for EVERY stream below 2^64 bytes, seek-based or strict skip, and every configuration (32-bit cumulative size, limit <= 4 x (2^32-1)), a returned media span satisfies offset + len <= input length - proved over the whole scan loop with the program logic of Lemmas/Hoare.lean (invariant: the collected span lies behind the cursor; the end-of-scan check bounds the cursor by the length; what is returned is the collected span). Component lemmas: the end-of-scan check passes iff position <= length (else TruncatedBox) - the mechanism that rejects overrunning boxes on seekable readers; strict skips/reads never leave the stream; seekable skips land exactly at pos+n without wrapping; the span bookkeeping keeps the span contiguous. The 'exactly the maximal media run, every mdat inside it' half is evaluated on the real output against an independent box walker for all reader kinds (Cursor, SeekSkipAdapter, strict), sparse streams up to 2^64-1, until-EOF mdat with and without cumulative size.",
+        "note": "Partial: 'span = maximal media run' is decided per generated case (Spec_C03), not yet by a theorem. The check found defect F1 (overrunning box accepted on seekable readers), repaired in /repo commit bdda8a4. Trusted: as C01.",
+        "technique": "Lean 4 proof: program logic + loop invariant over the scan loop (span inside the input for all inputs), cursor/span lemmas; differential correspondence across reader kinds with an independent walker",
     },
     "C04": {
         "text": "Lean theorems: the table rewrite preserves width, count, array length, serialized length and the 8 bytes before the array; a parsed ftyp re-serializes to its bytes for every length >= 8. Spec_C04 compares, on the real output, the ftyp payload and every moov payload byte outside the walker's tables with the input, on rich trees (unknown/uuid siblings at all five levels, 64-bit and until-end child headers).",
